@@ -690,7 +690,7 @@ def project_modes(obs, u, w, labels, n_modes, fallback):
         return m
     K = len(groups)
     m["kok"] = bool(ms.means.shape[0] == K and ms.covariances.shape[0] == K and ms.degrees_of_freedom.shape == (K,)
-                    and len(obs["fits"]) == K and len(obs["choices"]) == K)
+                    and len(obs["fits"]) == K)
     wn = np.asarray(w, dtype=float)
     for j in range(min(K, ms.means.shape[0], len(obs["fits"]))):
         f = obs["fits"][j]
@@ -716,10 +716,15 @@ def project_modes(obs, u, w, labels, n_modes, fallback):
             cholok = bool(cholfin and np.allclose(L, np.tril(L)) and np.all(np.abs(L @ L.T - C) <= 64 * d * EPS * np.outer(sd, sd)))
         ch = obs["choices"][j] if j < len(obs["choices"]) else None
         grp = groups[j]
-        resok = False
-        if ch is not None:
+        # "fitted on resampled support points": every row handed to the fit is a row of this label's particles with positive
+        # weight.  HOW the rows are drawn (numpy.random.choice, a systematic comb, ...) is not prescribed; when a choice() call
+        # was observed it must in addition be the one that produced the data.
+        pw = wn[grp]
+        support = {np.ascontiguousarray(r).tobytes() for r, ww in zip(np.asarray(u, dtype=float)[grp], pw) if ww > 0}
+        rows = np.asarray(f["data"], dtype=float)
+        resok = bool(rows.ndim == 2 and len(rows) >= 1 and all(np.ascontiguousarray(r).tobytes() in support for r in rows))
+        if ch is not None and resok:
             idx = ch["idx"]
-            pw = wn[grp]
             resok = bool(np.ndim(ch["a"]) == 0 and int(ch["a"]) == len(grp) and idx.ndim == 1 and len(idx) >= 1 and np.all(pw[idx] > 0)
                          and np.array_equal(f["data"], np.asarray(u)[grp][idx]))
         m["modes"].append({"raw": dof_class(raw), "stored": dof_class(stored), "isfb": bool(stored == fallback),
